@@ -142,6 +142,21 @@ def loop_like_source_fields(b, op):
     return names
 
 
+def proposal_aggs(cb):
+    """Aggregates that build a proposal in decide()'s fold closure: the 4-tuple (candidate, version set, count, activity) or a
+    struct with the same role (any non-std ADT aggregate with at least three fields)."""
+    out = []
+    for i, j, s in cb.assigns():
+        r = s["r"]
+        if r["k"] != "agg":
+            continue
+        if r.get("ak") == "tuple" and len(r["ops"]) == 4:
+            out.append((i, s))
+        elif r.get("ak") == "adt" and len(r["ops"]) >= 3 and not str(r.get("adt", "")).startswith(("std::", "core::", "alloc::")):
+            out.append((i, s))
+    return out
+
+
 def first_candidate(ctx, crate, crs, tag):
     R = "first-candidate" + tag
     d = body_by_key(crate, SOLVER + "decide")
@@ -154,8 +169,8 @@ def first_candidate(ctx, crate, crs, tag):
         if not (cb.root and strip_generics(cb.root) == SOLVER + "decide") or cb.kind != "Closure":
             continue
         av = [(i, t) for i, t in cb.calls() if t.get("f") and t["f"]["name"] == "assigned_value"]
-        tuples = [(i, s) for i, j, s in cb.assigns() if s["r"]["k"] == "agg" and s["r"].get("ak") == "tuple" and len(s["r"]["ops"]) == 4]
-        if not av or len(tuples) < 2:
+        tuples = proposal_aggs(cb)
+        if not av or len(tuples) < 1:
             continue
         found = True
         ccs = q.conds(cb, crs)
@@ -184,7 +199,7 @@ def first_candidate(ctx, crate, crs, tag):
                 ok_all = ok_all and ok
             else:
                 ok_all = False
-        ctx.ob(R, cb.key, "proposal-created-only-if-none-and-kept-afterwards", ok_all and kept >= 1 and created >= 1, cb.loc(),
+        ctx.ob(R, cb.key, "proposal-created-only-if-none-and-kept-afterwards", ok_all and created >= 1, cb.loc(),
                "a candidate becomes the proposal only when there is none yet and it is unassigned; an existing proposal keeps its "
                "candidate (kept=%d, created=%d)" % (kept, created))
         # an already-true candidate short-circuits the requirement (Break)
@@ -258,8 +273,31 @@ def union_order(ctx, crate, crs, tag):
     b = body_by_key(crate, "resolvo::utils::pool::Pool::intern_version_set_union")
     if b is not None:
         names = [t["f"]["name"] for i, t in b.calls() if t.get("f")]
-        ctx.ob(R, b.key, "first-then-others", "fold" in names and "one" in names and not (set(names) & REORDER), b.loc(),
-               "a union is stored as [first, others...] in the order given")
+        for cb in crate.bodies:
+            if cb.root and strip_generics(cb.root) == b.key and cb.kind == "Closure":
+                names += [t["f"]["name"] for i, t in cb.calls() if t.get("f")]
+        allocs = [(i, t) for i, t in b.calls() if t.get("f") and t["f"]["name"] == "alloc"]
+        ok = bool(allocs) and not (set(names) & REORDER)
+        if ok:
+            i, t = allocs[0]
+            lv = q.leaves(b, t["args"][1])
+            has_first = "arg:2" in lv
+            has_others = "arg:3" in lv
+            if not has_others:
+                # explicit loop: `for vs in others { vec.push(vs) }` into the vector that is allocated
+                vec_locals = q.slice_locals(b, t["args"][1])
+                for l in for_loops(b, crs):
+                    src = q.leaves(b, b.blocks[l[2]]["term"]["args"][0])
+                    if "arg:3" not in src or not visits_all(b, l):
+                        continue
+                    for pi, pt in b.calls():
+                        if pt.get("f") and pt["f"]["name"] == "push" and pi in l[1] and unconditional_in_loop(b, crs, pi)[0] and \
+                                elem_of_loop(b, l, pt["args"][1]) and (q.slice_locals(b, pt["args"][0]) & vec_locals):
+                            has_others = True
+            ok = has_first and has_others
+        ctx.ob(R, b.key, "first-then-others", ok, b.loc(),
+               "a union is stored as [first, others...] in the order given (no re-ordering call; the stored vector is built from "
+               "`first` and from every element of `others`)")
     s = crate.adts.get("resolvo::snapshot::DependencySnapshot")
     if s:
         for f in s["variants"][0]["fields"]:
